@@ -38,10 +38,11 @@ type Entry struct {
 
 // BuildOpts carries the environment-dependent parts of a build.
 type BuildOpts struct {
-	FS      http.FileSystem
-	Dir     string
-	Expires func() string
-	Cache   func() string
+	FS       http.FileSystem
+	Dir      string
+	OtherDir string // a directory outside the served one (for a second, unmounted Static instance)
+	Expires  func() string
+	Cache    func() string
 }
 
 var envs = []flamego.EnvType{flamego.EnvTypeDev, flamego.EnvTypeProd, flamego.EnvTypeTest}
@@ -112,9 +113,13 @@ func Build(s *Setup, reqs []*Req, o BuildOpts) *World {
 			return flamego.Renderer()
 		case HkStatic:
 			opt := flamego.StaticOptions{Prefix: s.Static.Prefix, Index: s.Static.Index, SetETag: s.Static.ETag, EnableLogging: s.Static.Logging}
-			if s.Static.UseDirectory {
+			switch {
+			case s.Static.DefaultDir:
+				// neither Directory nor FileSystem: flamego's documented default, "public" below
+				// the working directory
+			case s.Static.UseDirectory:
 				opt.Directory = o.Dir
-			} else {
+			default:
 				opt.FileSystem = o.FS
 			}
 			if s.Static.Expires {
@@ -123,7 +128,16 @@ func Build(s *Setup, reqs []*Req, o BuildOpts) *World {
 			if s.Static.CacheControl {
 				opt.CacheControl = o.Cache
 			}
-			return flamego.Static(opt)
+			// The options travel in a caller-owned slice that is reused afterwards for a second,
+			// never mounted instance rooted elsewhere: the first instance must keep its own
+			// configuration.
+			cfg := []flamego.StaticOptions{opt}
+			h := flamego.Static(cfg...)
+			if o.OtherDir != "" {
+				cfg[0] = flamego.StaticOptions{Directory: o.OtherDir, Prefix: "/admin", Index: "secret.txt"}
+				_ = flamego.Static(cfg...)
+			}
+			return h
 		case HkToken:
 			return func(c flamego.Context, r *http.Request) {
 				q := w.reqOf(r)
